@@ -11,6 +11,11 @@ import ast
 from ..core import AnalysisError
 from ..core import RuleResult
 from ..core import norm
+from ..flow import NORMAL
+from ..flow import RETURN
+from ..flow import BaseState
+from ..flow import Domain
+from ..flow import Interp
 from ..linear import canon
 from ..model import own_nodes
 
@@ -404,8 +409,318 @@ def rule_link_agreement(model):
     return r
 
 
+# ------------------------------------------------------------------ R6-R8
+# click-history half: three structural necessary conditions
+
+
+class _Depth(BaseState):
+    def __init__(self, d=0):
+        self.d = d
+
+    def key(self):
+        return self.d
+
+    def copy(self):
+        n = _Depth(self.d)
+        n.trace = self.trace
+        return n
+
+
+class _PathDomain(Domain):
+    """Counts pushes / pops of the id path list (`diff`)."""
+
+    def __init__(self, pname, fname):
+        self.p = pname
+        self.fname = fname
+        self.at_payload = []     # depth when the link payload is built
+        self.at_recursion = []   # depth at the recursive call
+        self.foreign = []        # other mutations of the path list
+
+    def _delta(self, stmt):
+        d = 0
+        for n in ast.walk(stmt):
+            if isinstance(n, ast.Call) and isinstance(n.func, ast.Attribute) \
+                    and isinstance(n.func.value, ast.Name) and \
+                    n.func.value.id == self.p:
+                if n.func.attr == 'append':
+                    d += 1
+                elif n.func.attr == 'pop' and not n.args:
+                    d -= 1
+                elif n.func.attr in ('extend', 'insert', 'remove', 'clear',
+                                     'reverse', 'sort', 'pop'):
+                    self.foreign.append(n)
+            if isinstance(n, ast.Delete):
+                for t in n.targets:
+                    if isinstance(t, ast.Subscript) and \
+                            isinstance(t.value, ast.Name) and \
+                            t.value.id == self.p:
+                        if norm(t.slice) == '-1':
+                            d -= 1
+                        else:
+                            self.foreign.append(n)
+            if isinstance(n, (ast.Assign, ast.AugAssign)):
+                tg = n.targets if isinstance(n, ast.Assign) else [n.target]
+                for t in tg:
+                    if isinstance(t, ast.Name) and t.id == self.p:
+                        self.foreign.append(n)
+                    if isinstance(t, ast.Subscript) and \
+                            isinstance(t.value, ast.Name) and \
+                            t.value.id == self.p:
+                        self.foreign.append(n)
+        return d
+
+    def _observe(self, node, state):
+        for n in ast.walk(node):
+            if isinstance(n, ast.Call):
+                f = norm(n.func)
+                if f == 'json.dumps' and n.args and \
+                        norm(n.args[0]) == self.p:
+                    self.at_payload.append((n, state.d))
+                if f == self.fname:
+                    self.at_recursion.append((n, state.d))
+
+    def effects(self, stmt, state):
+        if isinstance(stmt, (ast.FunctionDef, ast.ClassDef)):
+            return state
+        self._observe(stmt, state)
+        d = self._delta(stmt)
+        if d:
+            state = state.copy()
+            state.d = max(-3, min(3, state.d + d))
+        return state
+
+    def raises(self, node, state):
+        return []
+
+    def on_return(self, node, state):
+        if node.value is not None:
+            self._observe(node.value, state)
+        return [], state
+
+    def branch(self, test, state):
+        self._observe(test, state)
+        return [(True, state), (False, state)]
+
+
+def rule_path_stack(model):
+    r = RuleResult('C20.R6', 'the id path encoded into the expand/collapse '
+                   'links is a stack: the row renderer appends its own id '
+                   'exactly once before the link is built and before it '
+                   'recurses, and removes it again on every normal exit, so '
+                   'a link names precisely the path of its own node')
+    wr = model.func('TreeTag', 'tpRenderTABLE')
+    pay = [n for n in own_nodes(wr.node) if isinstance(n, ast.Call)
+           and norm(n.func) == 'json.dumps' and n.args
+           and isinstance(n.args[0], ast.Name)]
+    if not pay:
+        raise AnalysisError('tpRenderTABLE: path payload json.dumps(<name>) '
+                            'not found')
+    pname = pay[0].args[0].id
+    if pname not in wr.params():
+        raise AnalysisError(f'tpRenderTABLE: path list {pname!r} is not a '
+                            'parameter')
+    dom = _PathDomain(pname, wr.name)
+    it = Interp(dom)
+    outs = it.run(wr.node, _Depth(0))
+    if it.overflow:
+        raise AnalysisError('C20.R6: state budget exceeded')
+    n_exit = 0
+    for o in outs:
+        if o.kind in (NORMAL, RETURN):
+            n_exit += 1
+            r.instance(wr.where, f'exit at line-independent path, depth '
+                       f'{o.state.d:+d}', 'balanced' if o.state.d == 0
+                       else 'UNBALANCED')
+            if o.state.d != 0:
+                r.finding(wr.where, f'{pname} depth {o.state.d:+d} at exit',
+                          'a normal exit of the row renderer leaves the id '
+                          'path longer or shorter than it found it: every '
+                          'link rendered afterwards encodes the wrong path '
+                          'and toggles another node', node=o.node or wr.node,
+                          ctx=wr, path=o.state.trace)
+    for n, d in dom.at_payload:
+        r.instance(wr.where, n, f'payload built at depth {d:+d}')
+        if d != 1:
+            r.finding(wr.where, n, 'the link payload is built when the id '
+                      f'path does not (exactly once) contain the node\'s own '
+                      f'id (depth {d:+d})', node=n, ctx=wr)
+    for n, d in dom.at_recursion:
+        r.instance(wr.where, 'recursive call', f'depth {d:+d}')
+        if d != 1:
+            r.finding(wr.where, 'recursive call', 'children are rendered '
+                      'when the id path does not contain the parent\'s id '
+                      f'exactly once (depth {d:+d})', node=n, ctx=wr)
+        # the same list object is handed down
+        names = [norm(a) for a in n.args]
+        if pname not in names:
+            r.finding(wr.where, n, 'the recursive call does not hand the '
+                      'id path down', node=n, ctx=wr)
+    for n in dom.foreign:
+        r.finding(wr.where, n, 'the id path is mutated other than by '
+                  'append / del [-1]', node=n, ctx=wr)
+    if not dom.at_recursion or not n_exit:
+        raise AnalysisError('C20.R6: recursion or exits not found')
+    r.require_floor(3)
+    return r
+
+
+def _names(n):
+    return {x.id for x in ast.walk(n) if isinstance(x, ast.Name)}
+
+
+def rule_apply_diff(model):
+    r = RuleResult('C20.R7', 'the state update walks the clicked path by '
+                   'position: an id of the path is compared only with ids '
+                   'stored in the state, never with another element of the '
+                   'path (ids may repeat along a path), and the clicked node '
+                   'is the one at which the path is exhausted')
+    fi = model.func('TreeTag', 'apply_diff')
+    ps = fi.params()
+    if len(ps) < 3:
+        raise AnalysisError('apply_diff: unexpected signature')
+    state_p, path_p = ps[0], ps[1]
+    # names derived from the path / from the state (flow-insensitive
+    # closure over simple assignments and loop targets)
+    path_v, state_v = {path_p}, {state_p}
+    changed = True
+    while changed:
+        changed = False
+        for n in own_nodes(fi.node):
+            tgt = val = None
+            if isinstance(n, ast.Assign) and len(n.targets) == 1:
+                tgt, val = n.targets[0], n.value
+            elif isinstance(n, ast.For):
+                tgt, val = n.target, n.iter
+            elif isinstance(n, ast.NamedExpr):
+                tgt, val = n.target, n.value
+            if tgt is None:
+                continue
+            tn = {x.id for x in ast.walk(tgt) if isinstance(x, ast.Name)
+                  and isinstance(x.ctx, ast.Store)}
+            vn = _names(val)
+            for src, dst in ((path_v, path_v), (state_v, state_v)):
+                if vn & src and not tn <= dst:
+                    # index variables of range(len(x)) are positions
+                    if isinstance(val, ast.Call) and \
+                            norm(val.func) in ('range', 'len', 'enumerate') \
+                            and dst is path_v:
+                        if norm(val.func) == 'enumerate' and \
+                                isinstance(tgt, ast.Tuple) and \
+                                len(tgt.elts) == 2 and \
+                                isinstance(tgt.elts[1], ast.Name):
+                            if tgt.elts[1].id not in dst:
+                                dst.add(tgt.elts[1].id)
+                                changed = True
+                        continue
+                    if isinstance(val, ast.Call) and \
+                            norm(val.func) in ('range', 'len') :
+                        continue
+                    dst |= tn
+                    changed = True
+    path_only = path_v - state_v
+    r.instance(fi.where, f'path-derived names {sorted(path_v)}; '
+               f'state-derived names {sorted(state_v)}')
+    ncmp = 0
+    for n in own_nodes(fi.node):
+        if isinstance(n, ast.Compare) and len(n.ops) == 1 and \
+                isinstance(n.ops[0], (ast.Eq, ast.NotEq, ast.Is, ast.IsNot)):
+            l, rt = n.left, n.comparators[0]
+            ln, rn = _names(l), _names(rt)
+            if not (ln | rn) & path_v:
+                continue
+
+            def is_len(e):
+                return isinstance(e, ast.Call) and norm(e.func) == 'len' or \
+                    isinstance(e, ast.Constant) or (
+                        isinstance(e, ast.BinOp) and
+                        any(isinstance(c, ast.Call) and norm(c.func) == 'len'
+                            for c in ast.walk(e)))
+            if is_len(l) or is_len(rt):
+                continue        # positional / length tests
+            ncmp += 1
+            both_path = ln and rn and ln <= path_only and rn <= path_only
+            r.instance(fi.where, n, 'path id vs path id' if both_path
+                       else 'path id vs state id')
+            if both_path:
+                r.finding(fi.where, n, 'two elements of the clicked path are '
+                          'compared with each other: when an id repeats '
+                          'along a path (a/b/a) the walk stops at the first '
+                          'occurrence and the wrong node is toggled',
+                          node=n, ctx=fi)
+    if not ncmp:
+        raise AnalysisError('apply_diff: no id comparison found')
+    return r
+
+
+def rule_expand_all_isolation(model):
+    r = RuleResult('C20.R8', 'expand_all: while collecting the expandable '
+                   'nodes a failure on one child (no branches attribute, '
+                   'raising id) is confined to that child -- every call on '
+                   'the loop item sits in a handler inside the loop that '
+                   'goes on with the next sibling')
+    fi = model.func('TreeTag', 'tpValuesIds')
+    loops = [n for n in own_nodes(fi.node) if isinstance(n, ast.For)
+             and isinstance(n.target, ast.Name)]
+    if not loops:
+        raise AnalysisError('tpValuesIds: item loop not found')
+    from ..model import ancestors
+    n_calls = 0
+    for lp in loops:
+        item = lp.target.id
+        for st in lp.body:
+            for c in ast.walk(st):
+                if not isinstance(c, ast.Call):
+                    continue
+                if item not in {x.id for a in list(c.args) +
+                                [k.value for k in c.keywords]
+                                for x in ast.walk(a)
+                                if isinstance(x, ast.Name)}:
+                    continue
+                n_calls += 1
+                ok = False
+                for a in ancestors(c):
+                    if a is lp:
+                        break
+                    if isinstance(a, ast.Try):
+                        # the call must be in the try body, not a handler
+                        in_body = any(c is x for b in a.body
+                                      for x in ast.walk(b))
+                        if not in_body:
+                            continue
+                        for h in a.handlers:
+                            names = _handler_names(h)
+                            if names and not ({'Exception', 'BaseException'}
+                                              & set(names)):
+                                continue
+                            leaves = any(isinstance(x, (ast.Raise, ast.Return,
+                                                        ast.Break))
+                                         for b in h.body
+                                         for x in ast.walk(b))
+                            if not leaves:
+                                ok = True
+                        if ok:
+                            break
+                r.instance(fi.where, c, 'isolated' if ok else 'NOT isolated')
+                if not ok:
+                    r.finding(fi.where, c, 'a failure of this call on one '
+                              'child ends the whole sibling loop: every '
+                              'expandable sibling after it stays collapsed '
+                              'after expand_all', node=c, ctx=fi)
+    if n_calls < 2:
+        raise AnalysisError('tpValuesIds: calls on the loop item not found')
+    return r
+
+
+def _handler_names(h):
+    if h.type is None:
+        return []
+    els = h.type.elts if isinstance(h.type, ast.Tuple) else [h.type]
+    return [norm(e).split('.')[-1] for e in els]
+
+
 RULES = [rule_mirror, rule_chunks, rule_encoder_twins, rule_cleanup_loop,
-         rule_link_agreement]
+         rule_link_agreement, rule_path_stack, rule_apply_diff,
+         rule_expand_all_isolation]
 EXPLANATION = (
     'Stage extraction of the encoder and decoder pipelines and comparison '
     'of the decoder with the reversed inverse stage list; arithmetic '
